@@ -46,6 +46,8 @@ def assemble(repo, cdir, unit, mutate=None, mustfail=False):
     parts.append("verus! {\n")
     parts.append("// ---- prelude: trusted declarations (every item is listed as an assumption) ----\n")
     prelude = read(cdir, unit.get("prelude"))
+    if unit.get("std_specs", True):
+        prelude = read(os.path.join(VERIF, "prelude"), "std_int.rs") + "\n" + prelude
     parts.append(prelude)
     parts.append("\n// ---- proofs: spec functions and lemmas (checked) ----\n")
     proofs = read(cdir, unit.get("proofs"))
